@@ -181,7 +181,7 @@ fn match_place(single: &Arc<Single>, is_job_activity: bool, activity_ctx: &Activ
 
             let time = match time {
                 TimeSpan::Window(tw) => tw.clone(),
-                TimeSpan::Offset(_) => TimeWindow::new(activity_ctx.time.end - place.duration, activity_ctx.time.end),
+                TimeSpan::Offset(_) => time.to_time_window(activity_ctx.route_start_time),
             };
 
             Place { idx, location: activity_ctx.location, duration: place.duration, time }
